@@ -15,10 +15,26 @@ FIXED = [
  ("C12", "d73a05b", "eq-implies-hash:Number|Coord:num[zero]/num[neg0]", "+0.0 == -0.0 but Number/Coord hashed the raw bit pattern"),
  ("C12", "6daa969", "cmp-equal-iff-eq:Number:num[int,unit]/num[int,unit]", "Number::cmp ignored the unit: 1m vs 1s compared Equal although !="),
  ("C12", "74f18c9", "partial-agrees-with-total:Dict", "Dict::partial_cmp (entry-wise) disagreed with Dict::cmp (keys first), also through Value/Grid/Column"),
+ ("C02", "eb68bf1", "mismatch:dt[zone,east,h>=10|minutes,...] / rfc3339-instant", "fixed_timezone read one hour digit and dropped minutes (+10:00 -> UTC, +05:30 -> Etc/GMT-5) and the local time was re-interpreted in that zone: instants moved by hours (parse_from_rfc3339, Hayson dateTime with tz)"),
+ ("C02", "e225bc4", "mismatch:num[nan|inf|-inf]", "Hayson wrote NaN/+-INF as null and did not read the \"INF\"/\"-INF\"/\"NaN\" spellings"),
+ ("C02", "2331ea4", "mismatch:num[huge]", "Hayson cast unit-less integral numbers to i64: 1e21 written as 9223372036854775807"),
+ ("C02", "5e5847d", "mismatch:num[frac|tiny|huge|int] / coord", "serde_json default float parsing off by one ulp ('3e23' -> 2.9999999999999997e23)"),
+ ("C04", "a7fe66a", "d2-decoded-other-value[]:str[bs|ff]", "Zinc escapes \\b and \\f decoded as U+000B and U+000F"),
+ ("C04", "d2c6e7d", "d2-decode-error[crlf]:grid(...)", "Zinc document whose last line ends in CR LF rejected ('failed to fill whole buffer')"),
+ ("C04", "fc0194f", "d2-decode-error|d2-decoded-other-value[number-spelling]:num[huge|tiny]", "Zinc number with exponent converted in two steps: '0.00...05e1' read as 0, '1797...0e-1' rejected as 'infe-1'"),
+ ("C03", "5cdc99e", "crash:stack-overflow", "unbounded recursion of the Zinc parser: 10^4-10^5 nested '[' / '{a:' / '<<' abort the process"),
+ ("C03", "07a845e", "panic:zinc:from_str:index out of bounds", "grid row with more cells than columns indexes past the column vector ('ver:\"3.0\"\\na\\n1,2\\n')"),
+ ("C03", "5c2b364", "hang", "grid whose last row is not terminated by a newline loops forever inserting Null ('ver:\"3.0\"\\na\\n[1]')"),
+ ("C11", "d31f8df", "zinc-normalisation-loses:grid-ver-other", "Zinc encoder always wrote ver:\"3.0\": a decoded grid version was lost on re-encode"),
+ ("C11", "5aa4d80", "hayson-normalisation-loses:grid-ver-other", "Hayson encoder never wrote meta.ver: grid version \"2.0\" came back as \"3.0\""),
+ ("C11", "0212cb0", "zinc-normalisation-loses:uri", "Uri control characters (accepted by the decoder) silently dropped by the encoder"),
  ("C20", "4e8a32a", "macro:$n", "display macro names needed >= 2 characters: '$a' and '${b}' never substituted"),
 ]
 KNOWN = [
  # property, matcher, what, witness
+ ("C11", "zinc-normalisation-loses:empty-row-of-one-column-grid",
+  "a row without cells in a one-column grid has no Zinc spelling (the encoder writes an empty line, which ends the grid), yet the decoder produces such rows from text like ',' because it tolerates trailing empty cells (pinned by the unit test test_zinc_parse_nested_grid, so the decoder cannot be tightened); decode -> encode -> decode loses the row",
+  "ver:\"3.0\"\\na\\nN\\n,\\n  decodes to rows [{a:N},{}]; re-encoded as ver:\"3.0\"\\na\\nN\\n\\n\\n which decodes to one row"),
 ]
 def main():
     f = []
